@@ -9,7 +9,19 @@
 // Callbacks run scripts (enable/disable/delete of events of the same loop).  A pass line starts with the order
 // in which std::set<SignalSubscribuer*> iterates the events alive at the start of the pass (`ord=`): the model
 // takes it as its oracle (trace mode).  Format = lean/Driver/C04.lean.
+// Round 4: libc interposition (no change to the repository): pipe2 / close / sigprocmask / sigaction made by the library on a
+// loop's thread are recorded as tokens (`M sys=`: P pipe2 with O_NONBLOCK|O_CLOEXEC, B block-all, A<id> sigaction, S restore
+// of exactly the saved mask, Cw/Cr close of the pipe's ends); the handler's write() to a signal pipe is recorded per loop
+// (`M wr=`) and can be answered with an error (`raisew g <loops>`); the reads of CommonLoop::onSignal can be answered with
+// short counts / errors (`passc l <answers>`); `cap s` shrinks every signal pipe to one page (1024 numbers) at creation;
+// `burst g n` raises n times without a pass.  Signal ids 6..11 = SIGRTMAX, 65, INT_MAX, 0, -3, 32 (all but the first invalid).
+// Callback scripts act on events of ANY loop (the call is made on the thread of the loop that runs the callback).
 #include "vh.h"
+#include <dlfcn.h>
+#include <fcntl.h>
+#include <errno.h>
+#include <limits.h>
+#include <sys/ioctl.h>
 #include <signal.h>
 #include <sys/wait.h>
 #include <unistd.h>
@@ -27,17 +39,133 @@
 
 using namespace tbox::event;
 
-static const int kNSig = 6, kNLoop = 3, kNH = 3;
+static const int kNSig = 12, kNShow = 7, kNLoop = 3, kNH = 3;
 static int kSig[kNSig];
 static const int kMaskId[4] = {1, 2, 4, 5};   // sa_mask bit b <-> signal id kMaskId[b] (SIGKILL/SIGSTOP cannot be masked)
 static int sig_index(int signo) { for (int i = 0; i < kNSig; ++i) if (kSig[i] == signo) return i; return 99; }
+
+// ---- interposition
+static thread_local int t_loop = -1;          // >= 0 on the worker thread of that loop
+static const int kMaxFd = 4096;
+static volatile int g_wfd_loop[kMaxFd], g_rfd_loop[kMaxFd];   // fd -> loop + 1 of the signal pipe it belongs to (0 = none)
+static volatile int g_wfd_block[kMaxFd], g_rfd_block[kMaxFd];      // the end was created WITHOUT O_NONBLOCK
+static volatile sig_atomic_t g_would_block = 0; // the handler's write would have blocked for ever (full blocking pipe, nobody reads)
+static volatile int g_small = 0;              // shrink signal pipes to one page
+static volatile int g_wfail[3] = {0, 0, 0};   // answer the handler's write to loop l's pipe with this errno (0 = real write)
+static volatile sig_atomic_t g_nwr = 0;
+static volatile int g_wr_loop[64], g_wr_res[64];
+static std::vector<int> g_rq;                 // answers for the reads of the current pass: >0 count, -1 EINTR, -2 EIO
+static size_t g_rq_pos = 0;
+static std::vector<std::string> g_sys;        // tokens of the op in progress (worker threads only, hand-shaken)
+static bool g_cs_bad = false;
+static thread_local sigset_t t_saved_mask; static thread_local bool t_blocked = false;
+typedef ssize_t (*write_t)(int, const void *, size_t);
+typedef ssize_t (*read_t)(int, void *, size_t);
+typedef int (*pipe2_t)(int *, int);
+typedef int (*close_t)(int);
+typedef int (*sigprocmask_t)(int, const sigset_t *, sigset_t *);
+typedef int (*sigaction_t)(int, const struct sigaction *, struct sigaction *);
+static write_t r_write; static read_t r_read; static pipe2_t r_pipe2; static close_t r_close; static sigprocmask_t r_sigprocmask; static sigaction_t r_sigaction;
+static void resolve() {
+    if (r_write) return;
+    r_write = (write_t)dlsym(RTLD_NEXT, "write"); r_read = (read_t)dlsym(RTLD_NEXT, "read"); r_pipe2 = (pipe2_t)dlsym(RTLD_NEXT, "pipe2");
+    r_close = (close_t)dlsym(RTLD_NEXT, "close"); r_sigprocmask = (sigprocmask_t)dlsym(RTLD_NEXT, "sigprocmask");
+    r_sigaction = (sigaction_t)dlsym(RTLD_NEXT, "sigaction");
+}
+extern "C" ssize_t write(int fd, const void *buf, size_t n) {
+    if (!r_write) resolve();
+    int l = (fd >= 0 && fd < kMaxFd) ? g_wfd_loop[fd] - 1 : -1;
+    if (l < 0) return r_write(fd, buf, n);
+    ssize_t r; int e = 0;
+    if (g_wfail[l]) { r = -1; e = g_wfail[l]; }
+    else {
+        int pending = 0, size = fcntl(fd, F_GETPIPE_SZ);
+        if (g_wfd_block[fd] && ioctl(fd, FIONREAD, &pending) == 0 && size > 0 && pending + (int)n > size) {
+            g_would_block = 1; r = -1; e = EAGAIN;      // the real call would dead-lock the process inside the signal handler
+        } else { r = r_write(fd, buf, n); e = r < 0 ? errno : 0; }
+    }
+    int k = g_nwr; if (k < 64) { g_wr_loop[k] = l; g_wr_res[k] = r == (ssize_t)n ? 0 : (r < 0 ? e : -1000 - (int)r); g_nwr = k + 1; }
+    if (r < 0) errno = e;
+    return r;
+}
+extern "C" ssize_t read(int fd, void *buf, size_t n) {
+    if (!r_read) resolve();
+    int l = (fd >= 0 && fd < kMaxFd) ? g_rfd_loop[fd] - 1 : -1;
+    if (l >= 0 && g_rfd_block[fd]) {
+        int pending = 0;     // a blocking read end: onSignal's read-until-EAGAIN loop would sleep for ever on the empty pipe
+        if (ioctl(fd, FIONREAD, &pending) == 0 && pending == 0) { g_would_block = 1; errno = EAGAIN; return -1; }
+    }
+    if (l < 0 || t_loop < 0 || g_rq_pos >= g_rq.size()) return r_read(fd, buf, n);
+    int a = g_rq[g_rq_pos++];
+    if (a == -1) { errno = EINTR; return -1; }
+    if (a == -2) { errno = EIO; return -1; }
+    size_t want = (size_t)a * sizeof(int);
+    return r_read(fd, buf, want < n ? want : n);
+}
+extern "C" int pipe2(int fds[2], int flags) {
+    if (!r_pipe2) resolve();
+    int r = r_pipe2(fds, flags);
+    if (r == 0 && t_loop >= 0) {
+        if (fds[0] < kMaxFd && fds[1] < kMaxFd) { g_rfd_loop[fds[0]] = t_loop + 1; g_wfd_loop[fds[1]] = t_loop + 1; g_wfd_block[fds[1]] = !(flags & O_NONBLOCK); g_rfd_block[fds[0]] = !(flags & O_NONBLOCK); }
+        bool ok = (flags & O_NONBLOCK) && (flags & O_CLOEXEC);
+        g_sys.push_back(ok ? "P" : "P!");
+        if (g_small) fcntl(fds[1], F_SETPIPE_SZ, 4096);
+    }
+    return r;
+}
+extern "C" int close(int fd) {
+    if (!r_close) resolve();
+    if (fd >= 0 && fd < kMaxFd) {
+        if (g_wfd_loop[fd]) { g_wfd_loop[fd] = 0; if (t_loop >= 0) g_sys.push_back("Cw"); }
+        else if (g_rfd_loop[fd]) { g_rfd_loop[fd] = 0; if (t_loop >= 0) g_sys.push_back("Cr"); }
+    }
+    return r_close(fd);
+}
+extern "C" int sigprocmask(int how, const sigset_t *set, sigset_t *old) {
+    if (!r_sigprocmask) resolve();
+    if (t_loop < 0 || set == nullptr) return r_sigprocmask(how, set, old);
+    sigset_t before; r_sigprocmask(SIG_SETMASK, nullptr, &before);
+    int r = r_sigprocmask(how, set, old);
+    if (how == SIG_BLOCK) {
+        bool full = true;
+        for (int sgn = 1; sgn < 65; ++sgn) if (sgn != 32 && sgn != 33 && sigismember(set, sgn) != 1) full = false;
+        if (t_blocked) g_cs_bad = true;
+        t_saved_mask = before; t_blocked = true;
+        g_sys.push_back(full ? "B" : "B!");
+    } else if (how == SIG_SETMASK) {
+        bool same = t_blocked;
+        if (same) for (int sgn = 1; sgn < 65; ++sgn) if (sigismember(set, sgn) != sigismember(&t_saved_mask, sgn)) same = false;
+        t_blocked = false;
+        g_sys.push_back(same ? "S" : "S!");
+    } else g_sys.push_back("U!");
+    return r;
+}
+extern "C" int sigaction(int signo, const struct sigaction *act, struct sigaction *old) {
+    if (!r_sigaction) resolve();
+    int r = r_sigaction(signo, act, old);
+    if (t_loop >= 0 && act != nullptr) {
+        // the library changes a disposition: must happen with every signal blocked on this thread
+        sigset_t cur; r_sigprocmask(SIG_SETMASK, nullptr, &cur);
+        bool blocked = t_blocked && sigismember(&cur, SIGUSR1) == 1 && sigismember(&cur, SIGRTMIN + 1) == 1;
+        g_sys.push_back("A" + std::to_string(sig_index(signo)) + (r != 0 ? "x" : "") + (blocked ? "" : "!"));
+    }
+    return r;
+}
+static std::string show_sys() {
+    std::string s;
+    for (auto &t : g_sys) { if (!s.empty()) s += ","; s += t; }
+    if (g_cs_bad) s += s.empty() ? "BAD" : ",BAD";
+    return s.empty() ? "-" : s;
+}
+static const char *errname(int e) { return e == 0 ? "ok" : e == EAGAIN ? "EAGAIN" : e == EINTR ? "EINTR" : e == EIO ? "EIO" : e == EPIPE ? "EPIPE" : e == EBADF ? "EBADF" : "ERR"; }
 
 // ---- sentinel handlers (async-signal-safe: they only store into a preallocated array)
 static volatile sig_atomic_t g_ncalls = 0;
 static volatile int g_call_h[256], g_call_g[256];
 static void note_call(int h, int signo) { int n = g_ncalls; if (n < 256) { g_call_h[n] = h; g_call_g[n] = signo; g_ncalls = n + 1; } }
 template <int K> static void hfn(int signo) { note_call(K, signo); }
-template <int K> static void afn(int signo, siginfo_t *, void *) { note_call(K, signo); }
+// the three-argument form must receive the kernel's siginfo and context (chained call passes them on): else id + 50
+template <int K> static void afn(int signo, siginfo_t *si, void *ctx) { note_call((si != nullptr && si->si_signo == signo && ctx != nullptr) ? K : K + 50, signo); }
 typedef void (*h_t)(int);
 typedef void (*a_t)(int, siginfo_t *, void *);
 static const h_t kH[kNH] = {hfn<0>, hfn<1>, hfn<2>};
@@ -48,8 +176,10 @@ struct Worker {
     std::thread th; std::mutex m; std::condition_variable cv;
     std::function<void()> job; bool has = false, done = false, quit = false;
     std::thread::id tid;
+    int id = -1;
     void start() {
         th = std::thread([this] {
+            t_loop = id;
             std::unique_lock<std::mutex> lk(m);
             tid = std::this_thread::get_id(); done = true; cv.notify_all();
             for (;;) {
@@ -110,7 +240,7 @@ static std::string show() {
     if (objs.empty()) s += "-";
     for (auto *o : objs) s.push_back(o == nullptr ? 'x' : (o->isEnabled() ? '1' : '0'));
     s += " disp=";
-    for (int g = 0; g < kNSig; ++g) { if (g) s += "|"; s += disp_of(g); }
+    for (int g = 0; g < kNShow; ++g) { if (g) s += "|"; s += disp_of(g); }
     return s;
 }
 
@@ -121,11 +251,12 @@ static void reset_all() {
         if (objs[e]) { SignalEvent *o = objs[e]; workers[obj_loop[e]].run([o] { delete o; }); objs[e] = nullptr; }
     objs.clear(); obj_loop.clear(); scripts.clear(); cbs.clear(); thr_bad = false;
     for (int l = 0; l < kNLoop; ++l) { delete loops[l]; loops[l] = nullptr; }
-    for (int g = 0; g < kNSig; ++g) {
+    for (int g = 0; g < kNShow; ++g) {
         struct sigaction sa; memset(&sa, 0, sizeof(sa)); sa.sa_handler = SIG_DFL; sigemptyset(&sa.sa_mask);
         sigaction(kSig[g], &sa, nullptr);   // fails for SIGKILL/SIGSTOP, which never change anyway
     }
-    g_ncalls = 0;
+    g_ncalls = 0; g_small = 0; g_nwr = 0; g_would_block = 0; g_rq.clear(); g_rq_pos = 0; g_cs_bad = false;
+    for (int l = 0; l < kNLoop; ++l) g_wfail[l] = 0;
     engine = "epoll";
     make_loops();
 }
@@ -136,12 +267,12 @@ static bool idx(const std::string &w, uint64_t bound, size_t &out) {
 static bool parse_sigs(const std::string &w, std::set<int> &out) {
     out.clear();
     if (w == "-") return true;
-    std::stringstream ss(w); std::string item; long prev = -1;
+    std::stringstream ss(w); std::string item; long long prev = LLONG_MIN;
     if (w.empty() || w.back() == ',') return false;
     while (std::getline(ss, item, ',')) {
         size_t g; if (!idx(item, kNSig, g)) return false;
-        if ((long)g <= prev) return false;
-        prev = (long)g; out.insert(kSig[g]);
+        if ((long long)kSig[g] <= prev) return false;     // strictly ascending by signal number = iteration order of std::set<int>
+        prev = kSig[g]; out.insert(kSig[g]);
     }
     return true;
 }
@@ -149,11 +280,14 @@ static bool parse_sigs(const std::string &w, std::set<int> &out) {
 // the callbacks of one pass in call order
 static std::string show_cbs() {
     if (cbs.empty()) return "-";
-    std::string s;
+    std::string s, prev; size_t run = 0;
+    auto flush = [&] { if (run) { if (!s.empty()) s += ","; s += prev; if (run > 1) s += "*" + std::to_string(run); } };
     for (size_t i = 0; i < cbs.size(); ++i) {
-        if (i) s += ",";
-        s += std::to_string(cbs[i].sig) + ":e" + std::to_string(cbs[i].ev) + (cbs[i].en ? "+" : "-");
+        std::string t = std::to_string(cbs[i].sig) + ":e" + std::to_string(cbs[i].ev) + (cbs[i].en ? "+" : "-");
+        if (t == prev) { ++run; continue; }
+        flush(); prev = t; run = 1;
     }
+    flush();
     return s;
 }
 
@@ -176,10 +310,10 @@ static bool parse_script(const std::string &w, std::vector<Act> &out, size_t sel
             a.oneshot = (m == "o");
             if (sg != "-") {
                 if (sg.empty() || sg.back() == '.') return false;
-                std::stringstream s2(sg); std::string t; long prev = -1;
+                std::stringstream s2(sg); std::string t; long long prev = LLONG_MIN;
                 while (std::getline(s2, t, '.')) {
-                    uint64_t g; if (!vh::to_u64(t, g) || g >= (uint64_t)kNSig || (long)g <= prev) return false;
-                    prev = (long)g; a.sigs.insert(kSig[g]);
+                    uint64_t g; if (!vh::to_u64(t, g) || g >= (uint64_t)kNSig || (long long)kSig[g] <= prev) return false;
+                    prev = kSig[g]; a.sigs.insert(kSig[g]);
                 }
             }
         } else {
@@ -193,10 +327,14 @@ static bool parse_script(const std::string &w, std::vector<Act> &out, size_t sel
     return true;
 }
 
-// one script action, executed inside a callback on loop li's thread: only events of that loop
+// one script action, executed inside a callback on loop li's thread: an API call on an event of any loop (the other
+// loops' threads are parked between ops)
 static void apply(const Act &a, int li) {
-    if (a.j >= objs.size() || objs[a.j] == nullptr || obj_loop[a.j] != li) return;
+    (void)li;
+    if (a.j >= objs.size() || objs[a.j] == nullptr) return;
     SignalEvent *t = objs[a.j];
+    // the pipe a subscription may create belongs to the loop of the event acted on, not to the calling thread's loop
+    struct Scope { int saved; Scope(int l) : saved(t_loop) { t_loop = l; } ~Scope() { t_loop = saved; } } scope(obj_loop[a.j]);
     switch (a.kind) {
         case 'e': t->enable(); break;
         case 'd': t->disable(); break;
@@ -222,6 +360,9 @@ static void run_case(const std::vector<std::string> &lines) {
     std::cout << std::unitbuf;   // a sanitizer abort must not swallow the lines already produced
     LogOutput_Disable();
     kSig[0] = SIGKILL; kSig[1] = SIGUSR1; kSig[2] = SIGUSR2; kSig[3] = SIGSTOP; kSig[4] = SIGRTMIN + 1; kSig[5] = SIGRTMIN + 2;
+    kSig[6] = SIGRTMAX; kSig[7] = 65; kSig[8] = INT_MAX; kSig[9] = 0; kSig[10] = -3; kSig[11] = 32;
+    resolve();
+    for (int l = 0; l < kNLoop; ++l) workers[l].id = l;
     for (auto &w : workers) w.start();
     make_loops();
     reset_all();
@@ -230,6 +371,7 @@ static void run_case(const std::vector<std::string> &lines) {
         if (w.empty()) continue;
         if (w[0] == "case") { reset_all(); std::cout << line << "\n"; continue; }
         size_t l, e, g, f, m;
+        g_sys.clear(); g_cs_bad = false;
         if (w[0] == "eng" && w.size() == 2 && (w[1] == "e" || w[1] == "s")) {
             if (objs.empty()) {   // engine can only be chosen before the first event of the case
                 for (int i = 0; i < kNLoop; ++i) { delete loops[i]; loops[i] = nullptr; }
@@ -252,6 +394,26 @@ static void run_case(const std::vector<std::string> &lines) {
                 for (auto &a : sc) apply(a, li);
             });
             std::cout << "P ret=1 " << show() << "\n";
+        } else if (w[0] == "cap" && w.size() == 2 && (w[1] == "s" || w[1] == "d")) {
+            if (!objs.empty()) { std::cout << "bad-op\n"; continue; }
+            g_small = (w[1] == "s");
+            std::cout << "P cap\n";
+        } else if ((w[0] == "init1" || w[0] == "initl") && w.size() == 4 && idx(w[1], objs.size(), e)) {
+            // the int overload (one signal) and the initializer_list overload: both ADD to the event's set
+            std::set<int> ss;
+            if (!parse_sigs(w[2], ss) || (w[3] != "o" && w[3] != "p") || (w[0] == "init1" && ss.size() != 1)) { std::cout << "bad-op\n"; continue; }
+            SignalEvent *o = objs[e];
+            bool r = false;
+            Event::Mode md = w[3] == "o" ? Event::Mode::kOneshot : Event::Mode::kPersist;
+            if (o) workers[obj_loop[e]].run([&] {
+                if (w[0] == "init1") r = o->initialize(*ss.begin(), md);
+                else if (ss.size() == 1) r = o->initialize({*ss.begin()}, md);
+                else if (ss.size() == 2) r = o->initialize({*ss.rbegin(), *ss.begin()}, md);
+                else { auto it = ss.begin(); int a = *it++, b = *it++, c = *it; r = o->initialize({b, a, c}, md); }
+            });
+            if (ss.size() > 3) { std::cout << "bad-op\n"; continue; }
+            std::cout << "P ret=" << (r ? 1 : 0) << " " << show() << "\n";
+            std::cout << "M sys=" << show_sys() << "\n";
         } else if (w[0] == "init" && w.size() == 4 && idx(w[1], objs.size(), e)) {
             std::set<int> ss;
             if (!parse_sigs(w[2], ss) || (w[3] != "o" && w[3] != "p")) { std::cout << "bad-op\n"; continue; }
@@ -259,6 +421,7 @@ static void run_case(const std::vector<std::string> &lines) {
             bool r = false;
             if (o) workers[obj_loop[e]].run([&] { r = o->initialize(ss, w[3] == "o" ? Event::Mode::kOneshot : Event::Mode::kPersist); });
             std::cout << "P ret=" << (r ? 1 : 0) << " " << show() << "\n";
+            std::cout << "M sys=" << show_sys() << "\n";
         } else if ((w[0] == "en" || w[0] == "dis" || w[0] == "del") && w.size() == 2 && idx(w[1], objs.size(), e)) {
             SignalEvent *o = objs[e];
             bool r = false;
@@ -271,6 +434,7 @@ static void run_case(const std::vector<std::string> &lines) {
                 if (w[0] == "del") objs[e] = nullptr;
             }
             std::cout << "P ret=" << (r ? 1 : 0) << " " << show() << "\n";
+            std::cout << "M sys=" << show_sys() << "\n";
         } else if (w[0] == "sa" && w.size() == 5 && idx(w[1], kNSig, g) && w[2].size() >= 1 && idx(w[3], 4, f) && idx(w[4], 16, m)) {
             struct sigaction sa; memset(&sa, 0, sizeof(sa)); sigemptyset(&sa.sa_mask);
             size_t h = 0; bool ok = true;
@@ -287,25 +451,74 @@ static void run_case(const std::vector<std::string> &lines) {
             bool r = disp_of((int)g)[0] != 'T';
             if (r) r = sigaction(kSig[g], &sa, nullptr) == 0;
             std::cout << "P ret=" << (r ? 1 : 0) << " " << show() << "\n";
-        } else if (w[0] == "raise" && w.size() == 2 && idx(w[1], kNSig, g)) {
+        } else if (((w[0] == "raise" && w.size() == 2) || (w[0] == "raisew" && w.size() == 3) || (w[0] == "burst" && w.size() == 3)) && idx(w[1], kNSig, g)) {
+            size_t n = 1;
+            if (w[0] == "burst" && (!idx(w[2], 40001, n) || n == 0)) { std::cout << "bad-op\n"; continue; }
+            if (w[0] == "raisew") {
+                bool ok = w[2] == "-" || (!w[2].empty() && w[2].back() != ',');
+                std::stringstream ss(w[2]); std::string item; std::set<size_t> fl;
+                if (w[2] != "-") while (ok && std::getline(ss, item, ',')) { size_t x; if (!idx(item, kNLoop, x) || fl.count(x)) ok = false; else fl.insert(x); }
+                if (!ok) { std::cout << "bad-op\n"; continue; }
+                static const int errs[4] = {EAGAIN, EINTR, EIO, EPIPE}; int k = 0;
+                for (size_t x : fl) g_wfail[x] = errs[(k++ + g) % 4];
+            }
             char k = disp_of((int)g)[0];
             int before = g_ncalls;
             std::string outcome = k == 'd' ? "killed" : (k == 'i' ? "ignored" : "handled");
-            if (k != 'd') ::raise(kSig[g]);   // default action would terminate the process: not delivered
+            std::string wr;
+            size_t ncalls = 0;
+            for (size_t i = 0; i < n; ++i) {
+                g_nwr = 0;
+                if (k != 'd') ::raise(kSig[g]);   // default action would terminate the process: not delivered
+                if (i == 0 || i + 1 == n) {
+                    // the handler's writes of the first and the last delivery, by loop
+                    std::string one;
+                    for (int l2 = 0; l2 < kNLoop; ++l2)
+                        for (int j = 0; j < g_nwr; ++j) if (g_wr_loop[j] == l2) {
+                            if (!one.empty()) one += ",";
+                            one += "l" + std::to_string(l2) + ":" + (g_wr_res[j] <= -1000 ? "short" : errname(g_wr_res[j]));
+                        }
+                    if (one.empty()) one = "-";
+                    if (i == 0) wr = one; else wr += "/" + one;
+                }
+                if (w[0] == "burst") { ncalls += (size_t)(g_ncalls - before); g_ncalls = before; }
+            }
+            for (int l2 = 0; l2 < kNLoop; ++l2) g_wfail[l2] = 0;
+            if (w[0] == "burst") {
+                std::cout << "P burst " << outcome << " ncalls=" << ncalls << " " << show() << (g_would_block ? " HANDLER-WOULD-BLOCK" : "") << "\n";
+                std::cout << "M wr=" << wr << "\n";
+                continue;
+            }
             int after = g_ncalls;
             std::string calls;
             for (int i = before; i < after; ++i) { if (!calls.empty()) calls += ","; calls += std::to_string(g_call_h[i]) + ":" + std::to_string(sig_index(g_call_g[i])); }
             if (calls.empty()) calls = "-";
             if (after > 200) g_ncalls = 0;
-            std::cout << "P raise " << outcome << " calls=" << calls << " " << show() << "\n";
-        } else if (w[0] == "pass" && w.size() == 2 && idx(w[1], kNLoop, l)) {
+            std::cout << "P raise " << outcome << " calls=" << calls << " " << show() << (g_would_block ? " HANDLER-WOULD-BLOCK" : "") << "\n";
+            std::cout << "M wr=" << wr << "\n";
+        } else if (((w[0] == "pass" && w.size() == 2) || (w[0] == "passc" && w.size() == 3)) && idx(w[1], kNLoop, l)) {
+            g_rq.clear(); g_rq_pos = 0;
+            if (w[0] == "passc") {
+                bool ok = !w[2].empty() && w[2].back() != ',';
+                std::stringstream ss(w[2]); std::string item;
+                while (ok && std::getline(ss, item, ',')) {
+                    size_t c;
+                    if (item == "x") g_rq.push_back(-1); else if (item == "e") g_rq.push_back(-2);
+                    else if (idx(item, 11, c) && c >= 1) g_rq.push_back((int)c); else ok = false;
+                }
+                if (!ok || g_rq.size() > 64) { g_rq.clear(); std::cout << "bad-op\n"; continue; }
+            }
             cbs.clear(); thr_bad = false;
             std::string ord = show_ord();
             workers[l].run([&] {
                 loops[l]->runNext([] {}, "verif-nowait");     // keeps getWaitTime()==0: the pass never sleeps
                 loops[l]->runLoop(Loop::Mode::kOnce);
             });
-            std::cout << "P pass ord=" << ord << " cbs=" << show_cbs() << " thr=" << (thr_bad ? "BAD" : "ok") << " " << show() << "\n";
+            g_rq.clear(); g_rq_pos = 0;
+            bool disc = g_cs_bad;
+            for (auto &t : g_sys) if (t.find('!') != std::string::npos) disc = true;
+            std::cout << "P pass ord=" << ord << " cbs=" << show_cbs() << " thr=" << (thr_bad ? "BAD" : "ok") << " " << show() << (g_would_block ? " LOOP-WOULD-BLOCK" : "") << "\n";
+            std::cout << "M cs=" << (disc ? "BAD" : "ok") << "\n";
         } else {
             std::cout << "bad-op\n";
         }
